@@ -14,15 +14,22 @@ greenlets, custom items with and without frames.
 import random
 
 from . import frames_gen as G
+from .common import cbool, clist, copt
 from .c05 import acyclic, forget_synthetic_classes
 
 PROP = "C16"
 IMPORTS = "From SS Require Import Base M_Frames."
-KINDS = {"main": G.KIND_EXTRACT, "outer": G.KIND_OUTERMOST}
+KINDS = {"main": G.KIND_EXTRACT, "outer": G.KIND_OUTERMOST,
+         # re-entrant extract_outermost (called from a hook of an enclosing extract with other options) against
+         # M_Frames_Ambient.api_outermost
+         "amb": dict(imports="From SS Require Import Base M_Frames M_Frames_Ambient.", type="acase",
+                     mismatch="amismatches", nontrivial=None)}
 RULE = ("rank-ordered hook tables over 5 objects x 5 frames of which some objects are real suspended generators (own frame + delegate), "
         "acyclic item graph; each table is run through extract() (kind main: frames with origins compared in Coq) and through "
         "extract_outermost() (kind outer: OFrame / ORaise compared in Coq), with and without the contexts step and with 0-2 injected "
-        "faults; thorough adds more tables and every root. distinct = distinct descriptors; non-trivial = as C10 (main), every case (outer)")
+        "faults; a subset is repeated with the extract_outermost call made RE-ENTRANTLY from an unwrap_stackitem hook of an enclosing "
+        "extract(with_contexts=amb), amb in {True, False} (kind amb: compared in Coq with M_Frames_Ambient.api_outermost, which is "
+        "proved independent of the ambient options); thorough adds more tables and every root. distinct = distinct descriptors; non-trivial = as C10 (main), every case (outer)")
 SHARD = 250
 CONFIG = dict(
     coq=["C16"], level="proof",
@@ -66,6 +73,10 @@ def make_inputs(tier, seed):
             base = dict(d, root=root)
             yield dict(base, mode="extract")
             yield dict(base, mode="outermost", _kind="outer")
+            if kind in (1, 3) or made % 8 == 0:
+                # the same call made re-entrantly, from a hook of an enclosing extract(..., with_contexts=amb)
+                for amb in (True, False):
+                    yield dict(base, mode="outermost", _kind="amb", _ambient=amb)
     # roots without frames / with a failing unwrap
     base = {"nf": 1, "no": 4, "frames": {"0": ["plain"]}, "attr": {"1": {"wref": False}}, "ctxs": {}, "fill": {}, "faults": [],
             "with_ctx": False, "elab": {"0": ["none", None, False]},
@@ -189,11 +200,35 @@ def run_case(desc):
         forget_synthetic_classes()
 
 
+class _Trigger:
+    """a stack item whose unwrap hook runs a thunk: gives a hook context inside an enclosing extract()"""
+    thunk = None
+
+
+def in_hook_of_extract(amb, fn):
+    """run fn() from inside an unwrap_stackitem hook of extract(..., with_contexts=amb); amb None = top level"""
+    import stackscope
+    if amb is None:
+        return fn()
+    if not getattr(_Trigger, "_registered", False):
+        @stackscope.unwrap_stackitem.register(_Trigger)
+        def _(x):
+            _Trigger.result = _Trigger.thunk()
+            return None
+        _Trigger._registered = True
+    _Trigger.thunk, _Trigger.result = fn, None
+    st = stackscope.extract(_Trigger(), with_contexts=amb, recurse_child_tasks=not amb)
+    if st.error is not None:
+        raise st.error
+    return _Trigger.result
+
+
 def _run_case(desc):
     import stackscope
     if desc["mode"] == "outermost":
-        obs = G.run_impl(desc)
-        ext = G.run_impl(dict(desc, mode="extract"))
+        amb = desc.get("_ambient")
+        obs = in_hook_of_extract(amb, lambda: G.run_impl(desc))
+        ext = in_hook_of_extract(amb, lambda: G.run_impl(dict(desc, mode="extract")))
         # pair oracle on the abstract observations (fresh objects in each run, same ids)
         if ext.get("kind") == "ok":
             if ext["frames"]:
@@ -233,7 +268,12 @@ def _run_case(desc):
     return obs
 
 
-coq_case = G.c_case
+def coq_case(desc, obs):
+    if desc.get("_kind") == "amb":
+        out = (f"(OFrame {G.c_fout(obs['frame'])})" if obs["kind"] == "frame"
+               else f"(ORaise {clist([G.c_err(e) for e in obs['errs']])})")
+        return f"({copt(cbool(desc['_ambient']))}, {G.c_cfg(desc)}, {G.c_item(desc['root'])}, {out})"
+    return G.c_case(desc, obs)
 
 
 def direct_oracle(desc, obs):
@@ -248,6 +288,8 @@ def direct_oracle(desc, obs):
 
 def classify(desc, obs):
     labs = ["mode:" + desc["mode"], "with_ctx=%s" % desc["with_ctx"], "faults=%d" % len(desc["faults"])]
+    if "_ambient" in desc:
+        labs.append("reentrant:ambient=%s,arg=%s" % (desc["_ambient"], desc["with_ctx"]))
     if desc["mode"] == "outermost":
         labs.append("outermost:" + obs.get("kind", "?"))
     elif obs.get("kind") == "ok":
